@@ -552,11 +552,22 @@ def parse_mir_file(path, crate):
             fn.locals[0] = ret
         else:
             # const NAME: T = const V;   or   const NAME: T = {
-            mm = re.match(r'^(.*?): (.*) = (.*)$', rest)
-            if not mm:
+            # first ': ' outside <...> (impl locations contain ': ')
+            depth = 0
+            cpos = -1
+            for k, ch in enumerate(rest):
+                if ch == '<':
+                    depth += 1
+                elif ch == '>' and not (k > 0 and rest[k - 1] in '-='):
+                    depth -= 1
+                elif ch == ':' and depth == 0 and rest[k:k + 2] == ': ':
+                    cpos = k
+                    break
+            epos = rest.rfind(' = ')
+            if cpos < 0 or epos < cpos:
                 i += 1
                 continue
-            name, ty, val = mm.group(1), mm.group(2), mm.group(3)
+            name, ty, val = rest[:cpos], rest[cpos + 2:epos], rest[epos + 3:]
             fn = Function(name.strip(), crate)
             fn.kind = 'const'
             fn.ret = ty.strip()
